@@ -839,6 +839,12 @@ class CombinedMultiDict(ImmutableMultiDictMixin[K, V], MultiDict[K, V]):  # type
     def __reduce_ex__(self, protocol: t.SupportsIndex) -> t.Any:
         return type(self), (self.dicts,)
 
+    def deepcopy(self, memo: t.Any = None) -> te.Self:
+        """Return a deep copy of this object: a combined view over deep copies
+        of the wrapped dicts.
+        """
+        return self.__class__(deepcopy(self.dicts, memo))
+
     def __init__(self, dicts: cabc.Iterable[MultiDict[K, V]] | None = None) -> None:
         super().__init__()
         self.dicts: list[MultiDict[K, V]] = list(dicts or ())
